@@ -410,6 +410,9 @@ def write_cog_layers(
         is_float=pix.dtype.kind == "f",
         nodata=pix.attrs.get("nodata", None),
     )
+    if extra_rio_opts.get("nodata", None) is None:
+        # same as write_cog: ``nodata=None`` means "not given", nodata comes from the attributes
+        extra_rio_opts.pop("nodata", None)
     rio_opts.update(extra_rio_opts)
 
     first_pass_cfg: Dict[str, Any] = {
